@@ -773,37 +773,30 @@ def break_sites(ins):
 
 
 def repair_variants(fn, tree, limit=48):
-    """-> list of (classes tuple, new code) ordered from the smallest repair"""
+    """-> list of (classes tuple, new code), smallest repair first.  Only break_dead_pops has a byte-level repair
+    (move k of the dead pops in front of the break's Jump, k unknown: the run may end with the enclosing block's own
+    scope-end pops).  The former repair of catch_pops_outer is gone with the class (fixed in /repo da1fd00): a
+    PopExcHandler at the start of a catch block is a VIOLATION again."""
+    import itertools
     ins = listing(fn, tree)
     if not ins or ins[-1][4] != len(fn.code):
         return []
-    cs = catch_pop_sites(ins)
     bs = break_sites(ins)
-    variants = []
+    if not bs:
+        return []
     code_of = {i[0]: fn.code[i[0]] for i in ins}
-
-    def build(use_c, ks):
-        delete = set(cs) if use_c else set()
-        insert = {}
+    variants = []
+    ranges = [list(range(len(run), (len(run) + 1) // 2 - 1, -1)) for (q, run) in bs]
+    for ks in itertools.islice(itertools.product(*ranges), limit):
+        delete, insert = set(), {}
         for (q, run), k in zip(bs, ks):
-            if k:
-                moved = run[:k]
-                delete |= set(moved)
-                insert[q] = [code_of[m] for m in moved]
-        return reassemble(fn, ins, delete, insert)
-
-    if cs:
-        variants.append((("catch_pops_outer",), build(True, [0] * len(bs))))
-    if bs:
-        import itertools
-        ranges = [list(range(len(run), (len(run) + 1) // 2 - 1, -1)) for (q, run) in bs]
-        combos = list(itertools.islice(itertools.product(*ranges), limit))
-        for ks in combos:
-            variants.append((("break_dead_pops",), build(False, ks)))
-        if cs:
-            for ks in combos:
-                variants.append((("break_dead_pops", "catch_pops_outer"), build(True, ks)))
-    return [(c, code) for c, code in variants if code is not None]
+            moved = run[:k]
+            delete |= set(moved)
+            insert[q] = [code_of[m] for m in moved]
+        code = reassemble(fn, ins, delete, insert)
+        if code is not None:
+            variants.append((("break_dead_pops",), code))
+    return variants
 
 
 # ------------------------------------------------------------------------------------------------
